@@ -134,7 +134,7 @@ func init() {
 		// (1) all short histories
 		depth := 4
 		if rep.Tier == "thorough" {
-			depth = 6
+			depth = 7
 		}
 		st := BFSStats{}
 		sp := BFSSpec{Name: "short-histories", Check: "C18", Oracle: "C18", Cfg: WorldCfg{Accounts: []Account{{supiA, 1, "100000", "1"}, {supiA, 2, "100000", "2"}, {supiB, 1, "100000", "1"}}},
